@@ -31,10 +31,9 @@ ROOTS = [
                                    'modularity_probtune_und_sign', 'clustering_coef_wu_sign', 'diversity_coef_sign', 'gateway_coef_sign', 'participation_coef_sign',
                                    'modularity_louvain_und', 'modularity_louvain_dir', 'community_louvain', 'randmio_und_signed', 'randmio_dir_signed']}),
  dict(id='inf-nan-into-integer-array', fix='proposed_fixes/variants_integer_nan_inf.diff',
-      summary='reachdist (and erange through it) stores inf, charpath stores nan, into a copy of the argument that has the argument\'s dtype: an integer '
-              'matrix raises OverflowError / ValueError (reachdist also takes its matrix powers in the storage dtype); for a 0/1-valued distance matrix stored as '
-              'bool charpath silently stores True for nan (lambda 1.0 instead of nan for D=[[0]], the diagonal of distance_bin(K_n) counted as 1)',
-      pairs={'reachdist': INTS + ['bool'], 'erange': INTS + ['bool'], 'charpath': INTS + ['bool']}),
+      summary='charpath stores nan into a copy of the distance matrix that has the argument\'s dtype: an integer distance matrix raises ValueError; for a '
+              '0/1-valued distance matrix stored as bool nan is silently stored as True (lambda 1.0 instead of nan for D=[[0]])',
+      pairs={'charpath': INTS + ['bool']}),      # (reachdist / erange: the same root cause, repaired in /repo 4fc05b1)
  dict(id='arithmetic-in-storage-dtype', fix='proposed_fixes/variants_storage_dtype_arithmetic.diff',
       summary='sums and matrix products are taken in the dtype of the argument: A + A.T / np.dot are LOGICAL for bool, products and differences WRAP for uint8 / int8 '
               '- wrong clustering / transitivity / coreness / local efficiency / z-score / matching / GTOM values, Louvain gains of ~250 for uint8 (wrong partitions, '
